@@ -1099,6 +1099,11 @@ func (s *Server) UpdateGCSafePoint(ctx context.Context, request *pdpb.UpdateGCSa
 		return &pdpb.UpdateGCSafePointResponse{Header: s.notBootstrappedHeader()}, nil
 	}
 
+	// The load-compare-save below must not interleave with another update,
+	// otherwise a smaller safe point can overwrite a larger one.
+	s.gcSafePointLock.Lock()
+	defer s.gcSafePointLock.Unlock()
+
 	oldSafePoint, err := s.storage.LoadGCSafePoint()
 	if err != nil {
 		return nil, err
